@@ -574,30 +574,74 @@ def check_quotes_shape(ctx: Ctx) -> None:
     ctx.require("R-SUBSHAPE", "apostrophe substitutions", n_sub, 1)
     ctx.ob("R-SUBSHAPE-apostrophe", f"{ap.qual} :: words rejoined with the empty string", n_join >= 1,
            "the word list (with captured separators) must be rejoined with ''", where(ap, ap.node))
-    # smart_quotes: slices partition the text, tags are copied verbatim
+    # smart_quotes: slices partition the text, tags are copied verbatim. The partition loop (over TEMPLATE_TAG_PATTERN.finditer)
+    # may live in smart_quotes or in a private helper / generator it uses; what it emits (append or yield) is examined.
     sq = repo.func(f"{mod}:smart_quotes")
-    sflow = prog.flow(sq)
-    appends = [(n, c) for n, c in sflow.all_calls() if isinstance(c.func, ast.Attribute) and c.func.attr == "append" and c.args]
+    cands = [sq] + [repo.functions[q] for q in sorted(exclusive_helpers(prog, sq)) if q in repo.functions]
+    part = None
+    for g in cands:
+        if isinstance(g.node, ast.Lambda):
+            continue
+        gfl = prog.flow(g)
+        for h in gfl.cfg.nodes:
+            if h.kind == "for" and any(isinstance(x, ast.Attribute) and x.attr == "finditer" for x in ast.walk(h.ast.iter)) and isinstance(h.ast.target, ast.Name):
+                part = (g, gfl, h)
+    if part is None:
+        raise AnalysisError("partition loop over the template tags not found in smart_quotes")
+    g, gfl, h = part
+    mvar = h.ast.target.id
+    tparam = g.params[0]
+    emitted: list[tuple[Node, ast.AST]] = []
+    for n in gfl.cfg.nodes:
+        for ex in gfl.node_exprs(n):
+            for x in walk_no_nested(ex):
+                if isinstance(x, ast.Call) and isinstance(x.func, ast.Attribute) and x.func.attr == "append" and len(x.args) == 1:
+                    emitted.append((n, x.args[0]))
+                elif isinstance(x, ast.Yield) and x.value is not None:
+                    emitted.append((n, x.value.elts[0] if isinstance(x.value, ast.Tuple) and x.value.elts else x.value))
     n_app = 0
-    for n, c in appends:
-        a = c.args[0]
+    cursors: set[str] = set()
+    for n, a in emitted:
         n_app += 1
-        if isinstance(a, ast.Call) and _group_of(prog, sq, a, n) == 0:
-            ctx.ob("R-SUBSHAPE-tags", f"{sq.qual} :: {norm(c)}", True, "template tag copied verbatim", where(sq, c))
+        inner = a
+        if isinstance(a, ast.Call) and prog.resolve_call(g, a) == [ap] and a.args:
+            inner = a.args[0]
+        inner = expand_expr(prog, g, inner, n, depth=1)
+        if isinstance(inner, ast.Call) and isinstance(inner.func, ast.Attribute) and inner.func.attr == "group" and isinstance(inner.func.value, ast.Name) \
+                and inner.func.value.id == mvar and (not inner.args or (isinstance(inner.args[0], ast.Constant) and inner.args[0].value == 0)):
+            ctx.ob("R-SUBSHAPE-tags", f"{sq.qual} :: tag emitted verbatim", inner is expand_expr(prog, g, a, n, depth=1) or not (isinstance(a, ast.Call) and prog.resolve_call(g, a) == [ap]),
+                   "a template tag is copied verbatim (never handed to the rewriter)", where(g, n))
             continue
         ok = False
-        if isinstance(a, ast.Call) and prog.resolve_call(sq, a) == [ap] and a.args:
-            sl = expand_expr(prog, sq, a.args[0], n, depth=1)
-            if isinstance(sl, ast.Subscript) and isinstance(sl.slice, ast.Slice) and sl.slice.step is None:
-                lo = norm(sl.slice.lower) if sl.slice.lower is not None else ""
-                hi = norm(sl.slice.upper) if sl.slice.upper is not None else ""
-                ok = lo == "last_end" and hi in ("start", "") and isinstance(sl.value, ast.Name) and sl.value.id == sq.params[0]
-        ctx.ob("R-SUBSHAPE-tags", f"{sq.qual} :: {norm(c)[:70]}", ok,
-               "outside tags the rewriter is applied to the slices text[last_end:start] / text[last_end:], which partition the text", where(sq, c))
+        if isinstance(inner, ast.Subscript) and isinstance(inner.slice, ast.Slice) and inner.slice.step is None and isinstance(inner.value, ast.Name) \
+                and inner.value.id == tparam and isinstance(inner.slice.lower, ast.Name):
+            cur = inner.slice.lower.id
+            hi = inner.slice.upper
+            hi_ok = hi is None
+            if isinstance(hi, ast.Name):
+                # upper bound = start of the current tag: unpacked from match.span() (index 0) or match.start()
+                for o in origins(prog, g, hi, n):
+                    if (o[0] == "unpack" and o[2] == 0 and isinstance(o[1], tuple) and o[1][0] == "call" and str(o[1][1]).endswith(".span")) or \
+                            (o[0] == "call" and str(o[1]).endswith(".start")):
+                        hi_ok = True
+            if hi_ok:
+                ok = True
+                cursors.add(cur)
+        ctx.ob("R-SUBSHAPE-tags", f"{sq.qual} :: {norm(a)[:70]}", ok,
+               "outside tags the rewriter is applied to the slices text[cursor:start] / text[cursor:], which partition the text", where(g, n))
     ctx.require("R-SUBSHAPE", "segment appends in smart_quotes", n_app, 2)
-    upd = [n for n in sflow.cfg.nodes if n.kind == "stmt" and isinstance(n.ast, ast.Assign) and norm(n.ast) == "last_end = end"]
-    ctx.ob("R-SUBSHAPE-tags", f"{sq.qual} :: cursor advances to the end of each tag", len(upd) == 1,
-           "last_end = end after every tag, so no character is skipped or duplicated", where(sq, sq.node))
+    # the cursor is moved to the end of each tag, in every iteration
+    adv = False
+    for cur in cursors:
+        for n in gfl.loop_body_nodes(h):
+            if n.kind == "stmt" and isinstance(n.ast, ast.Assign) and len(n.ast.targets) == 1 and isinstance(n.ast.targets[0], ast.Name) and n.ast.targets[0].id == cur:
+                for o in origins(prog, g, n.ast.value, n):
+                    if (o[0] == "unpack" and o[2] == 1 and isinstance(o[1], tuple) and o[1][0] == "call" and str(o[1][1]).endswith(".span")) or \
+                            (o[0] == "call" and str(o[1]).endswith(".end")):
+                        if not {(b, lab) for b, lab in (must_edges(gfl.cfg, h, n) or set()) if b is not h}:
+                            adv = True
+    ctx.ob("R-SUBSHAPE-tags", f"{sq.qual} :: cursor advances to the end of each tag", adv and len(cursors) == 1,
+           "the cursor is set to the end of the tag after every tag, so no character is skipped or duplicated", where(g, h))
     # non-ASCII literals
     _check_literals(ctx, mod, set(CURLY_DOUBLE + CURLY_SINGLE + ("—",)))
 
